@@ -113,6 +113,7 @@ type SyncMapSpec struct {
 	Field string // Type.field
 	Key   string
 	Val   string
+	Props []string // properties whose checks require every writer of the map to be under contract
 }
 
 type ContractSet struct {
@@ -308,11 +309,16 @@ func (cs *ContractSet) parseFile(path, pkgPath string) error {
 			cur = nil
 		case "syncmap":
 			// syncmap Type.field key K val V
+			// syncmap Type.field key K val V [props C01 C02 ...]
 			f := strings.Fields(rest)
-			if len(f) != 5 || f[1] != "key" || f[3] != "val" {
-				return fail(fmt.Errorf("expected 'syncmap Type.field key K val V'"))
+			if len(f) < 5 || f[1] != "key" || f[3] != "val" || (len(f) > 5 && f[5] != "props") {
+				return fail(fmt.Errorf("expected 'syncmap Type.field key K val V [props ...]'"))
 			}
-			cs.SyncMaps[pkgPath+"."+f[0]] = &SyncMapSpec{Pkg: pkgPath, Field: f[0], Key: f[2], Val: f[4]}
+			sm := &SyncMapSpec{Pkg: pkgPath, Field: f[0], Key: f[2], Val: f[4]}
+			if len(f) > 6 {
+				sm.Props = f[6:]
+			}
+			cs.SyncMaps[pkgPath+"."+f[0]] = sm
 			cur = nil
 		case "ghost":
 			cur = nil
